@@ -2,11 +2,11 @@
     Only pinned statements, [exact], and [Print Assumptions].
 
     [quote pos o s] models brush-core/src/escape.rs [quote] over the regenerated tables of
-    gen/EscapeTables.v; [pos] says whether the code has the position-dependent escaping test
-    [needs_escaping_at] (regenerated flag [EscapeTables.positional_escaping]; absent in the
+    gen/C13EscapeTables.v; [pos] says whether the code has the position-dependent escaping test
+    [needs_escaping_at] (regenerated flag [C13EscapeTables.positional_escaping]; absent in the
     unchanged tree).  [read_word p w] is the reader specification of Quote/Reader.v: the bash
     quoting rules for one word in argument / assignment position. *)
-From BV Require Import Base.Prelude gen.EscapeTables Quote.Quote Quote.Reader Quote.Proofs.
+From BV Require Import Base.Prelude gen.C13EscapeTables Quote.Quote Quote.Reader Quote.Proofs.
 
 Theorem c13_read_single : forall p s, read_word p (single_quote s) = Some s.
 Proof. exact read_single. Qed.
